@@ -100,9 +100,11 @@ package clientgen
 //@   ensures err == nil ==> spec.AllOK_flatten(file.Messages)
 
 //@ func (g *Generator) generateOneofDiscriminatorFile(file *protogen.File) (err error)
+//@   modifies *
 //@   ensures err == nil ==> spec.AllOK_oneof(file.Messages)
 
 //@ func (g *Generator) generateFile(file *protogen.File) (err error)
+//@   modifies *
 //@   ensures enum: err == nil ==> spec.AllOK_enum(file.Messages)
 //@   ensures nullable: err == nil ==> spec.AllOK_nullable(file.Messages)
 //@   ensures emptyBehavior: err == nil ==> spec.AllOK_emptyBehavior(file.Messages)
@@ -112,6 +114,7 @@ package clientgen
 //@   ensures oneof: err == nil ==> spec.AllOK_oneof(file.Messages)
 
 //@ func (g *Generator) Generate() (err error)
+//@   modifies *
 //@   ensures rules: err == nil ==> (forall k int :: 0 <= k && k < len(g.plugin.Files) && g.plugin.Files[k].Generate ==> spec.FileOK_client(g.plugin.Files[k]))
 //@   loop 1 invariant forall k int :: 0 <= k && k < _i1 && g.plugin.Files[k].Generate ==> spec.FileOK_client(g.plugin.Files[k])
 
@@ -138,6 +141,7 @@ package clientgen
 //@   decreases spec.depth(messages)
 
 //@ func collectOneofDiscriminatorMessages(messages []*protogen.Message, contexts *[]*OneofDiscriminatorContext)
+//@   modifies *
 //@   modifies contexts
 //@   decreases spec.depth(messages)
 
